@@ -20,7 +20,8 @@ RULE = ("Hypothesis draws a large structured operator (n in 1024..1300, so that 
         "(resource bound): tracemalloc peak during the call minus the baseline <= 16 x (operand bytes + result bytes + array "
         "bytes of the leaves + dense bytes of every maximal sub-block on which the function has no structural rule) + 256 KiB. "
         "A control measurement of A.to_dense() must register ~n^2*itemsize, otherwise the run is a harness error. Non-trivial: a "
-        "linear-algebra entry point (not a bare product), a nested structure, or the algorithm argument omitted.")
+        "linear-algebra entry point (not a bare product), a nested structure, or the algorithm argument omitted. A positive "
+        "multiple of a PSD Kronecker operator is also called with Cholesky / Eigh (it inherits the declaration).")
 ASSUMPTIONS = [
     "tracemalloc sees NumPy buffer allocations (it does: NumPy registers them); memory inside LAPACK work arrays is not seen",
     "calibration on the pinned tree: factor-wise paths peak at 0.1-7 units, densifying paths at >= 350 units, so the factor 16 has a wide margin on both sides",
@@ -203,8 +204,8 @@ def check(case, out):
         name = "Eig" if name == "LU" else "Eigh"
     if entry in ("diag", "trace", "matvec", "cholesky", "plu"):
         name = "Auto"
-    if struct in ("prod_kron_diag", "scaled_kron", "sum", "prod", "sum_kron_diag") and name in ("Cholesky", "Eigh"):
-        name = "Auto"  # these composites are not declared PSD
+    if struct in ("prod_kron_diag", "sum", "prod", "sum_kron_diag") and name in ("Cholesky", "Eigh"):
+        name = "Auto"  # these composites are not declared PSD (a positive multiple of a PSD operator, scaled_kron, inherits the declaration)
     algobj = {"Auto": L.Auto, "LU": L.LU, "Cholesky": L.Cholesky, "Eig": L.Eig, "Eigh": L.Eigh}[name]()
     alg = [algobj] if with_alg else []
     out.label("algname:" + (name if with_alg else "omitted"))
